@@ -382,6 +382,11 @@ func (e *evalCtx) cmpAtom(t *Term) (string, bool) {
 			}
 		}
 		ps := np.String()
+		// the length of a string is zero iff the string is empty
+		if (op == "==" || op == "!=") && strings.HasPrefix(ps, "(call:builtin:lenstr(") && strings.HasSuffix(ps, "))") && len(np) == 1 {
+			inner := strings.TrimSuffix(strings.TrimPrefix(ps, "(call:builtin:lenstr("), "))")
+			return "eq(\"\"," + inner + ")", op == "!="
+		}
 		switch op {
 		case "<":
 			return ps + "<0", false
@@ -603,7 +608,7 @@ func nonNegativeAtom(p Poly) bool {
 			return false
 		}
 		a := t.m.atoms[0]
-		return strings.HasPrefix(a, "call:builtin:len(") || (strings.HasPrefix(a, "sym:L") && strings.HasSuffix(a, ".I"))
+		return strings.HasPrefix(a, "call:builtin:len(") || strings.HasPrefix(a, "call:builtin:lenstr(") || (strings.HasPrefix(a, "sym:L") && strings.HasSuffix(a, ".I"))
 	}
 	return false
 }
